@@ -53,6 +53,14 @@ CHECKS = {
         "Dense arrays under sorted, reversed, interleaved and seeded per-axis labelings are converted to blocks and compared with the harness's projection onto the conserving sectors "
         "(reordered by charge, original position); to_dense is compared with the harness embedding; non-zero entries outside the conserving sectors are ignored / refused as documented.",
    note="Trusted: harness embedding / projection. from_blocks is compared on the charges that occur in the given blocks (it cannot know others)."),
+ "C01": dict(engine="E-bfs", design_ref="DESIGN.md 5 C01, 4.3, 2.4",
+   technique="explicit-state breadth-first search over operation sequences on the real objects, states canonicalised by structure key, independent validity audit evaluated on every transition's results",
+   text="From ~10^4 root arrays (all five symmetries; abelian and fermionic; dynamic, static and symmetry-object classes; n<=3; every direction pattern, charges, sparsity, pending signs, labels) "
+        "and block vectors, the whole public operation catalogue (~100 argument choices per state: structure, fuse/unfuse/reshape in both strategies, contraction in both modes, einsum/trace, "
+        "arithmetic, reductions, phase operations, qr/svd/svd_truncated/eigh/solve through methods, symmray functions and autoray) is applied breadth-first; every member of every returned "
+        "tuple is audited by an independent re-implementation of 'valid array' and becomes a successor state. Depth 2 is explored completely in quick (10^7 transitions, ~10^6 distinct "
+        "structure states), depth 3 in thorough under a reported cap. This reaches derived inputs (nested / conjugated sub-index info, dropped charges, truncated factors) that no constructor gives.",
+   note="Trusted: mc/audit.py + mc/groups.py as the definition of validity. Merging states with equal structure keys assumes data obliviousness. Known finding: expand_dims(c=odd) on fermionic arrays."),
 }
 
 _ALL = ["C%02d" % i for i in range(1, 21)]
